@@ -25,11 +25,16 @@ at the level of the 32-bit word stream of one column record (either byte order),
 at the level of the word stream of a file, `file_roundtrip_bytes` at the level of bytes with names and
 format detection.  For ASCII see the second half of the file.
 
-The places where the unchanged code does **not** satisfy the property are explicit:
-* `pack_fits_i32`: the packed nonbigmat string header fits `struct.pack('i', …)` iff
-  `L + 1 < 32768`; `nonbigmat_overflow_example` is the 16384-row real string (finding F2);
-* `fmtE_width`: a formatted value has the announced width `digits + 7` iff it is not a negative
-  value with a three-digit exponent; `ascii_overflow_example` is `-2.5e-120` (finding F3).
+Findings F2 and F3 are repaired in /repo (27f7d6b, 7ee1407); what they were stays visible:
+* `pack_fits_i32`: a packed nonbigmat string header fits `struct.pack('i', …)` iff `L + 1 < 32768`;
+  `nonbigmat_overflow_example` is the 16384-row real string (finding F2).  The writer now splits such a string
+  (`_split_strings`): the writer model is `encMatWordsFx` of Model/Op4Fixed.lean and the whole-file theorems for it are in
+  Props/C04Fix.lean (`file_writes_fixed`, `file_roundtrip_binary_domain_fixed`, `file_roundtrip_bytes_domain_fixed`);
+  `encMatWords` below is the encoder without the split, which is the writer whenever no string exceeds
+  `16383 // multiplier` rows (`writer_eq_unsplit`), and `file_writes_iff` says where that encoder is defined;
+* (repaired in /repo, fix 7ee1407; the model follows the repaired code) `fmtE_width`: `fmt % x` has the announced width
+  `digits + 7` iff it is not a negative value with a three-digit exponent (`ascii_overflow_example`: `-2.5e-120`, finding
+  F3); `numform(x)` prints such a value with one digit less and always has the announced width.
 (Finding F49 — the record length of a scipy.sparse input in the binary dense layout was computed in numpy int32
 scalars and wrapped from a 2 GiB column record on — is repaired in /repo (`s = int(…)`, `e = int(…)`): the model
 follows the repaired code, `write_sparse_eq_write_dense` holds without any size hypothesis, and the oracle
@@ -145,19 +150,33 @@ theorem bytes_roundtrip (e : Endian) (ws : List Nat) (h : ∀ w ∈ ws, w < 2 ^ 
       simp only [List.flatMap_cons, wordBytes, List.cons_append, List.nil_append, wordsOfBytes, ht,
         bytesWord, List.cons.injEq, and_true] <;> omega
 
-/-- width of `'%{digits+7}.{digits}E' % x` for a finite double: the announced field width
-`digits + 7` unless the value is negative with a three-digit exponent, and then it is one more -/
+/-- width of `'%{digits+7}.{digits}E' % x` (`fmtE0`, the first attempt of `numform`) for a finite double: the
+announced field width `digits + 7` unless the value is negative with a three-digit exponent (`Wide`), and then it is
+one more — the defect of finding F3, which `numform` repairs by printing such a value with one digit less:
+`numform(x)` (`fmtE`) is exactly `digits + 7` wide for EVERY finite double, and is `fmt % x` for a value that fits -/
 theorem fmtE_width (d b : Nat) (hd : 1 ≤ d) :
-    ((fmtE d b).length = d + 7 ↔ ¬ ((sci d b).neg = true ∧ 100 ≤ (sci d b).e10.natAbs)) ∧
-      ((sci d b).neg = true ∧ 100 ≤ (sci d b).e10.natAbs → (fmtE d b).length = d + 8) := by
-  have he := sci_e10_bound d b
-  unfold fmtE numlen numlenBase expdigits
-  rw [length_padLeft, sciChars_length d _ hd he]
-  cases (sci d b).neg <;> by_cases h : (sci d b).e10.natAbs < 100 <;> simp [h] <;> omega
+    (fmtE d b).length = d + 7 ∧ (Wide d b = false → fmtE d b = fmtE0 d b ∧ (fmtE0 d b).length = d + 7) ∧
+      (Wide d b = true → (fmtE0 d b).length = d + 8 ∧
+        fmtE d b = padLeft (numlen d) (sciChars (d - 1) (sci (d - 1) b))) := by
+  have hn : numlen d = d + 7 := by unfold numlen numlenBase expdigits; omega
+  refine ⟨by rw [fmtE_length d b hd, hn], ?_, ?_⟩
+  · intro h
+    refine ⟨by rw [fmtE_eq d b hd, h]; rfl, by rw [fmtE0_length_narrow d b hd h, hn]⟩
+  · intro h
+    refine ⟨?_, by rw [fmtE_eq d b hd, h]; rfl⟩
+    have he := sci_e10_bound d b
+    unfold Wide at h
+    simp only [Bool.and_eq_true, decide_eq_true_eq] at h
+    unfold fmtE0 numlen numlenBase expdigits
+    rw [length_padLeft, sciChars_length d _ hd he]
+    have h2 : ¬ (sci d b).e10.natAbs < 100 := by omega
+    simp [h.1, h2]; omega
 
-/-- F3: `-2.5e-120` with 16 digits is 24 characters in a 23-character field; `2.5e-120` fits -/
+/-- `-2.5e-120` with 16 digits is `Wide` (24 characters in a 23-character field: the failing input of F3); it is
+printed with 15 digits -/
 theorem ascii_overflow_example :
-    (sci 16 0xA719D28F47B4D525).neg = true ∧ (sci 16 0xA719D28F47B4D525).e10 = -120 := by
+    (sci 16 0xA719D28F47B4D525).neg = true ∧ (sci 16 0xA719D28F47B4D525).e10 = -120 ∧
+      Wide 16 0xA719D28F47B4D525 = true := by
   decide +kernel
 
 /-- the binary writer succeeds exactly when every string of every matrix written in the nonbigmat
@@ -274,8 +293,8 @@ number of digits" is therefore two statements: the decimal read back **is** the 
 (`file_roundtrip_ascii`, `ascii_entry_spec`: `decOf d x = (sign, the d+1 digit mantissa, e10 - d)`),
 and the decimal printed is within half a unit of its last digit of the double (`ascii_value_half_unit`,
 with `sci_mantissa_digits`: the mantissa really has `d + 1` digits, so `e10` is the decimal exponent).
-The hypothesis that every written value fits its field, `Fits d b := ¬(neg ∧ |e10| ≥ 100)`, is the
-boundary of finding F3 (`fmtE_width`, `ascii_overflow_example`). -/
+Every written value fits its field: a negative value with a three-digit exponent (`Wide`) is printed with one digit less
+(repair of finding F3: `fmtE_width`, `ascii_overflow_example`), so `decOf d b` is `decOf0 (d - 1) b` for it. -/
 
 /-- the writer's value lines are exactly `chunkLines`: the fields, `perline` to a line, every line
 terminated (so whatever follows starts a new line) -/
@@ -304,40 +323,34 @@ theorem ascii_slicing (g : Cfg) (hw : 1 ≤ g.numlen) (hp : 1 ≤ g.perline) (fs
     have hb := getBlock_chunkLines' g hp fs.length fs rest (Nat.le_refl _) (hD hdf)
     rw [hb]; exact ⟨hf, rfl⟩
 
-/-- the width hypothesis of `ascii_slicing` is what `fmtE_width` characterises: a printed value has
-the announced width iff it is not negative with a three-digit exponent -/
-theorem fits_iff_width (d b : Nat) (hd : 1 ≤ d) : Fits d b ↔ (fmtE d b).length = numlen d := by
-  have h := (fmtE_width d b hd).1
-  unfold Fits
-  rw [show numlen d = d + 7 from by unfold numlen numlenBase expdigits; omega]
-  exact h.symm
+/-- the width hypothesis of `ascii_slicing` holds for every printed value (F3 repaired) -/
+theorem fits_iff_width (d b : Nat) (hd : 1 ≤ d) : (fmtE d b).length = numlen d := fmtE_length d b hd
 
 /-- **ascii_column_roundtrip_dense**: the values of a dense column record (any segment, real or
 complex) come back as the printed decimals, in order, and exactly the value lines are consumed -/
 theorem ascii_column_roundtrip_dense (g : Cfg) (d : Nat) (cplx : Bool) (hg : GoodCfg g d cplx) (hd : 1 ≤ d)
-    (hp : 1 ≤ perline d) (seg : List Entry) (hfit : ∀ b ∈ segDs cplx seg, Fits d b) (rest : List (List Char)) :
+    (hp : 1 ≤ perline d) (seg : List Entry) (rest : List (List Char)) :
     ∃ blk, getBlock g (segDs cplx seg).length (valLines d (segDs cplx seg) ++ rest) = (blk, rest) ∧
       readVals g blk (segDs cplx seg).length = some (seg.map (aEntry d cplx)) :=
-  readVals_valLines g d cplx hg hd hp seg hfit rest
+  readVals_valLines g d cplx hg hd hp seg (fun b _ => fits_all d b hd) rest
 
 /-- **ascii_column_roundtrip_bigmat**: for *every* list of strings `(first row, elements)` — any
 partition, adjacent strings, zeros inside a string — the bigmat string loop returns, string by
 string, the 0-based row and the printed decimals, and stops exactly after the last value line -/
 theorem ascii_column_roundtrip_bigmat (g : Cfg) (d : Nat) (cplx : Bool) (hg : GoodCfg g d cplx) (hd : 1 ≤ d)
     (hp : 1 ≤ perline d) (ss : List (Nat × List Entry)) (rest : List (List Char)) (fuel : Nat) (hf : ss.length ≤ fuel)
-    (hfit : ∀ s ∈ ss, ∀ b ∈ segDs cplx s.2, Fits d b)
     (hw : ∀ s ∈ ss, s.2.length * 2 * mult cplx + 1 < 10 ^ 8 ∧ s.1 + 1 < 10 ^ 8) :
     rdStrBig g fuel (nwordsBig cplx ss) (ss.flatMap (bigStrLines d cplx) ++ rest)
       = some (ss.map (fun s => (s.1, s.2.map (aEntry d cplx))), rest) :=
-  rdStrBig_enc g d cplx hg hd hp rest ss fuel hf hfit hw
+  rdStrBig_enc g d cplx hg hd hp rest ss fuel hf (fun _ _ b _ => fits_all d b hd) hw
 
 /-- **ascii_column_roundtrip_nonbigmat**: the same for the packed `IS` header, rows below 65536 -/
 theorem ascii_column_roundtrip_nonbigmat (g : Cfg) (d : Nat) (cplx : Bool) (hg : GoodCfg g d cplx) (hd : 1 ≤ d)
     (hp : 1 ≤ perline d) (ss : List (Nat × List Entry)) (rest : List (List Char)) (fuel : Nat) (hf : ss.length ≤ fuel)
-    (hfit : ∀ s ∈ ss, ∀ b ∈ segDs cplx s.2, Fits d b) (hw : ∀ s ∈ ss, s.1 + 1 < 65536) :
+    (hw : ∀ s ∈ ss, s.1 + 1 < 65536) :
     rdStrNonbig g fuel (nwordsNonbig cplx ss) (ss.flatMap (nonbigStrLines d cplx) ++ rest)
       = some (ss.map (fun s => (s.1, s.2.map (aEntry d cplx))), rest) :=
-  rdStrNonbig_enc g d cplx hg hd hp rest ss fuel hf hfit hw
+  rdStrNonbig_enc g d cplx hg hd hp rest ss fuel hf (fun _ _ b _ => fits_all d b hd) hw
 
 /-- the lines `bigStrLines` / `nonbigStrLines` are what the writer prints for a string -/
 theorem string_lines (d : Nat) (hp : 1 ≤ perline d) (cplx : Bool) (s : Nat × List Entry) (tail : List Char) :
@@ -362,8 +375,8 @@ carrying the written name field, rows (negated for bigmat), columns, form, type,
 entry (`ReadOf`, see `ascii_entry_spec`) to the columns `decCol` of `file_roundtrip_binary`.
 Hypotheses (`MatOK`): columns of `rows` entries, `6·rows < 10^8` and `ncols + 1 < 10^8`, `form < 10^8`
 (the 8-character integer fields), a valid name of at most 8 characters, nonbigmat only below 65536
-rows, and **every written value fits its field** (`Fits`: not negative with a three-digit exponent —
-the necessary condition of finding F3, see `ascii_overflow_example`). -/
+rows.  Every finite double is admitted: a negative value with a three-digit exponent is written with one digit less
+(`fmtE_width`; finding F3 is repaired). -/
 theorem file_roundtrip_ascii (d : Nat) (hd : 1 ≤ d) (hd' : d ≤ 73) (ms : List (Layout × Mat)) (hne : ms ≠ [])
     (hok : ∀ p ∈ ms, MatOK d p) :
     ∃ ds, loadAscii (encFileAscii d ms) = some ds ∧ List.Forall₂ (ADecOf d) ms ds := by
@@ -378,7 +391,8 @@ theorem decOf_zero (d b : Nat) (h : isZeroD b = true) : (decOf d b).man = 0 := b
   have hb : b % 9223372036854775808 = 0 := by simpa using h
   have h1 : b / 4503599627370496 % 2048 = 0 := by omega
   have h2 : b % 4503599627370496 = 0 := by omega
-  simp [decOf, sciDec, sci, sciOf, h1, h2]
+  unfold decOf
+  split <;> simp [decOf0, sciDec, sci, sciOf, h1, h2]
 
 /-- what `ReadOf` means entry by entry: if the written column holds `x` at row `i`, the column the
 ASCII reader rebuilds holds `y` there, where for a non-zero `x` (bit patterns) `y` is exactly the
@@ -417,12 +431,16 @@ theorem ascii_entry_spec (d : Nat) (lay : Layout) (cplx : Bool) (col : List Entr
 theorem sci_mantissa_digits (d b : Nat) :
     (sci d b).mant < 10 ^ (d + 1) ∧ ((sci d b).mant = 0 ∨ 10 ^ d ≤ (sci d b).mant) := sci_mant d b
 
-/-- **to the requested number of digits.**  The decimal read back for a double `b` printed with `d`
-digits after the point, `decOf d b = (sign, mantissa, e10 - d)`, differs from the exact value of the
-double, `bitsVal b = (-1)^s · m · 2^e2`, by at most half a unit of the last printed digit:
-`|read − x| ≤ ½ · 10^(e10 − d)` (rational arithmetic, no rounding anywhere) -/
+/-- **to the requested number of digits.**  The decimal read back for a double `b` printed with `d` digits after the
+point differs from the exact value of the double, `bitsVal b = (-1)^s · m · 2^e2`, by at most half a unit of the last
+printed digit: `|read − x| ≤ ½ · 10^(e10 − d)`, and `½ · 10^(e10' − (d − 1))` for a negative value with a three-digit
+exponent (`Wide`: printed with `d − 1` digits, `e10'` its exponent at that precision); rational arithmetic, no
+rounding anywhere -/
 theorem ascii_value_half_unit (d b : Nat) :
-    |Dec10.toRat (decOf d b) - bitsVal b| ≤ 1 / 2 * (10 : ℚ) ^ ((sci d b).e10 - (d : Int)) := decOf_err d b
+    (Wide d b = false → |Dec10.toRat (decOf d b) - bitsVal b| ≤ 1 / 2 * (10 : ℚ) ^ ((sci d b).e10 - (d : Int))) ∧
+    (Wide d b = true →
+      |Dec10.toRat (decOf d b) - bitsVal b| ≤ 1 / 2 * (10 : ℚ) ^ ((sci (d - 1) b).e10 - ((d - 1 : Nat) : Int))) :=
+  decOf_err d b
 
 /-- what a value field reads as: `float(fmtE d b)` is the printed decimal, whatever the width -/
 theorem field_roundtrip (d b : Nat) (hd : 1 ≤ d) : pyFloat? (fmtE d b) = some (decOf d b) := pyFloat_fmtE d b hd
@@ -782,29 +800,54 @@ example :
 `Model/Op4AsciiBits.lean`: `decBits x` is the double CPython's `float()` returns for the exact decimal `x` (the
 correctly rounded `PyFloat.toBits`). -/
 
+/-- what the printed decimal is: `decOf0 d` (`d` digits) unless the value is `Wide`, and then `decOf0 (d - 1)` -/
+theorem decOf_cases (d b : Nat) :
+    (Wide d b = false → decOf d b = decOf0 d b) ∧ (Wide d b = true → decOf d b = decOf0 (d - 1) b) := by
+  constructor <;> intro h <;> simp [decOf, h]
+
 /-- **read_back_bits.**  A *normal* double printed with `digits ≥ 16` (17 or more significant digits) reads back
-bit-identical: the field `fmtE d b` denotes the decimal `decOf d b` (`field_roundtrip`), which lies within half a
-unit of its last digit of the double (`ascii_value_half_unit`), and that is less than half (at the bottom of a
-binade: a quarter) of the spacing of the doubles there, so round-to-nearest returns the double. -/
-theorem read_back_bits (d b : Nat) (hd : 16 ≤ d) (hd' : d ≤ 5000) (hb : IsNormal b) :
+bit-identical — for a negative value with a three-digit exponent (`Wide`), which is printed with one digit less,
+from `digits ≥ 17` on (hypothesis `Wide d b = false ∨ 17 ≤ d`): the field `fmtE d b` denotes the decimal `decOf d b`
+(`field_roundtrip`), which lies within half a unit of its last digit of the double (`ascii_value_half_unit`), and
+that is less than half (at the bottom of a binade: a quarter) of the spacing of the doubles there, so
+round-to-nearest returns the double. -/
+theorem read_back_bits (d b : Nat) (hd : 16 ≤ d) (hd' : d ≤ 5000) (hb : IsNormal b)
+    (hw : Wide d b = false ∨ 17 ≤ d) :
     (pyFloat? (fmtE d b)).map decBits = some b := by
-  rw [field_roundtrip d b (by omega), Option.map_some, decBits_decOf_normal d b hd hd' hb]
+  rw [field_roundtrip d b (by omega), Option.map_some]
+  cases hwd : Wide d b with
+  | false => rw [(decOf_cases d b).1 hwd, decBits_decOf_normal d b hd hd' hb]
+  | true =>
+    have h17 : 17 ≤ d := by rcases hw with h | h; · rw [hwd] at h; cases h
+                            · exact h
+    rw [(decOf_cases d b).2 hwd, decBits_decOf_normal (d - 1) b (by omega) (by omega) hb]
 
 /-- **read_back_bits, subnormals and zeros**: a subnormal double (exponent field 0) and `±0.0` read back
-bit-identical too — the spacing is `2^-1074` whatever the magnitude -/
+bit-identical too — the spacing is `2^-1074` whatever the magnitude (same hypothesis on `Wide` values: every
+negative subnormal is one) -/
 theorem read_back_bits_subnormal (d b : Nat) (hd : 16 ≤ d) (hd' : d ≤ 5000) (hb64 : b < 2 ^ 64)
-    (hef : b / 2 ^ 52 % 2048 = 0) : (pyFloat? (fmtE d b)).map decBits = some b := by
+    (hef : b / 2 ^ 52 % 2048 = 0) (hw : Wide d b = false ∨ 17 ≤ d) :
+    (pyFloat? (fmtE d b)).map decBits = some b := by
   rw [field_roundtrip d b (by omega), Option.map_some]
-  by_cases hmf : b % 4503599627370496 = 0
-  · rw [decBits_decOf_zero d b hd' hb64 (by norm_num at hef; omega)]
-  · rw [decBits_decOf_subnormal d b hd hd' hb64 (by norm_num at hef; exact hef) hmf]
+  have key : ∀ k, 16 ≤ k → k ≤ 5000 → decBits (decOf0 k b) = b := by
+    intro k hk hk'
+    by_cases hmf : b % 4503599627370496 = 0
+    · rw [decBits_decOf_zero k b hk' hb64 (by norm_num at hef; omega)]
+    · rw [decBits_decOf_subnormal k b hk hk' hb64 (by norm_num at hef; exact hef) hmf]
+  cases hwd : Wide d b with
+  | false => rw [(decOf_cases d b).1 hwd, key d hd hd']
+  | true =>
+    have h17 : 17 ≤ d := by rcases hw with h | h; · rw [hwd] at h; cases h
+                            · exact h
+    rw [(decOf_cases d b).2 hwd, key (d - 1) (by omega) (by omega)]
 
-/-- every finite double: `digits ≥ 16` makes the ASCII round trip of a value exact -/
+/-- every finite double: `digits ≥ 16` (`≥ 17` for a `Wide` value) makes the ASCII round trip of a value exact -/
 theorem read_back_bits_finite (d b : Nat) (hd : 16 ≤ d) (hd' : d ≤ 5000) (hb64 : b < 2 ^ 64)
-    (hfin : isFiniteD b = true) : (pyFloat? (fmtE d b)).map decBits = some b := by
+    (hfin : isFiniteD b = true) (hw : Wide d b = false ∨ 17 ≤ d) :
+    (pyFloat? (fmtE d b)).map decBits = some b := by
   by_cases hef : b / 2 ^ 52 % 2048 = 0
-  · exact read_back_bits_subnormal d b hd hd' hb64 hef
-  · apply read_back_bits d b hd hd'
+  · exact read_back_bits_subnormal d b hd hd' hb64 hef hw
+  · apply read_back_bits d b hd hd' _ hw
     refine ⟨hb64, ?_, ?_⟩
     · norm_num at hef; omega
     · unfold isFiniteD at hfin
@@ -815,11 +858,11 @@ theorem read_back_bits_finite (d b : Nat) (hd : 16 ≤ d) (hd' : d ≤ 5000) (hb
 with `digits = 16` it reads back as itself (non-vacuity of `read_back_bits`, also at the bottom of a binade and
 for the smallest normal and a subnormal double) -/
 theorem read_back_needs_17 :
-    decBits (decOf 15 0x3FD3333333333334) = 0x3FD3333333333333 ∧
-      decBits (decOf 16 0x3FD3333333333334) = 0x3FD3333333333334 ∧ IsNormal 0x3FD3333333333334 ∧
-      decBits (decOf 16 0x4340000000000000) = 0x4340000000000000 ∧
-      decBits (decOf 16 0x0010000000000000) = 0x0010000000000000 ∧
-      decBits (decOf 16 0x8000000000000001) = 0x8000000000000001 := by
+    decBits (decOf0 15 0x3FD3333333333334) = 0x3FD3333333333333 ∧
+      decBits (decOf0 16 0x3FD3333333333334) = 0x3FD3333333333334 ∧ IsNormal 0x3FD3333333333334 ∧
+      decBits (decOf0 16 0x4340000000000000) = 0x4340000000000000 ∧
+      decBits (decOf0 16 0x0010000000000000) = 0x0010000000000000 ∧
+      decBits (decOf0 16 0x8000000000000001) = 0x8000000000000001 := by
   refine ⟨by decide +kernel, by decide +kernel, ⟨by decide, by decide, by decide⟩, by decide +kernel,
     by decide +kernel, by decide +kernel⟩
 
@@ -838,7 +881,7 @@ theorem dir_matches_load_ascii (d : Nat) (hd : 1 ≤ d) (hd' : d ≤ 73) (ms : L
   have hp : 1 ≤ perline d := by
     unfold perline numlen numlenBase expdigits lineWidth
     exact (Nat.le_div_iff_mul_le (by omega)).2 (by omega)
-  have hdir := dirAscii_enc d hp ms hne fun p hp' => ⟨(hok p hp').1, (hok p hp').2.1⟩
+  have hdir := dirAscii_enc d hp ms hne fun p hp' => ⟨(hok p hp').1, (hok p hp').2⟩
   obtain ⟨ds, hds, hrel⟩ := loadAscii_enc d hd hp ms hne hok
   exact ⟨hdir, ds, hds, by rw [hdir, listing_of_decs d ms ds hrel]⟩
 
